@@ -64,7 +64,7 @@ TCall ==
 
 TOther ==
   /\ l <= N
-  /\ E.e \in {"Ret", "Visit", "Mem", "SrcCheck", "DropElem", "CloneElem", "End", "Hang", "Abort"}
+  /\ E.e \in {"Ret", "Visit", "Mem", "SrcCheck", "DropElem", "CloneElem", "Partial", "End", "Hang", "Abort"}
   /\ l' = l + 1
   /\ UNCHANGED <<run, hb, inNext, viol, cnt>>
 
